@@ -567,8 +567,12 @@ def run(ctx):
 
 
 def run_rest(ctx, exe):
-    env = dict(os.environ, VERIF_DRIVER="brokerhttp")
-    ctx.assumptions += ["model = coq/Model/BrokerHttp.v (handlers as total functions of read result and IPC outcome); IPC outcome per case observed by a direct IPC call on the versioned twin body",
+    os.makedirs(vlib.TMP, exist_ok=True)
+    env = dict(os.environ, VERIF_DRIVER="brokerhttp", VERIF_TMP_DIR=vlib.TMP)
+    ctx.assumptions += ["model = coq/Model/BrokerHttp.v (handlers as total functions of read result and IPC outcome; refined: request record, response writer, partial operations, routes, "
+                        "/debug /metrics /prometheus /robots.txt, broker state through IPC only); IPC outcome per case observed by a direct IPC call on the versioned twin body",
+                        "sequential model: overlapping requests (soak, child process) and the http.Server of main() (broker binary over TCP) are observed, not proved; "
+                        "ServeMux path cleaning / escapes and the /prometheus text are library code (status and content class only)",
                         "net/http framing, MaxBytesReader and the AMP armor are library code: monitored (complete response, connection reusable, server alive), not modelled"]
     ctx.trusted.append("harness/overlay/broker/zz_verif_http_test.go (raw TCP client, real net/http server with the routes of main())")
     ctx.trusted.append("lib/checks/c14live.py (python http.client against the broker binary started from main()); harness/overlay/broker/zz_verif_soak_test.go")
@@ -675,8 +679,18 @@ def run_rest(ctx, exe):
 
 def replay(ctx, doc):
     exe = vlib.go_test_build("./broker", name="broker.test")
-    env = dict(os.environ, VERIF_DRIVER="brokerhttp")
+    os.makedirs(vlib.TMP, exist_ok=True)
+    env = dict(os.environ, VERIF_DRIVER="brokerhttp", VERIF_TMP_DIR=vlib.TMP)
     bad = 0
+    labels = set(v["replay"].get("label") for v in doc.get("violations", []))
+    if "live-binary" in labels:
+        viol, notshown, stats = c14live.run_binary(vlib.go_build("./broker", name="broker"), os.path.join(vlib.GOB, "c14live-%d" % os.getpid()))
+        print("broker binary over TCP again: %d violations %s %s" % (len(viol), [(k, w[:160]) for k, w, _ in viol[:4]], notshown[:2]))
+        bad += len(viol)
+    if "soak" in labels:
+        viol, notshown, stats = c14live.run_soak(exe, os.path.join(vlib.GOB, "c14soak-%d" % os.getpid()), 5000)
+        print("soak again: %d violations %s %s" % (len(viol), [(k, w[:200]) for k, w, _ in viol[:2]], stats))
+        bad += len(viol)
     for v in doc.get("violations", []):
         case = v["replay"].get("case")
         if not case or not case.startswith("brokerhttp"):
